@@ -74,9 +74,26 @@ impl<const N: usize> error::TexError for OutOfBoundsError<N> {
 
 impl Parsable for char {
     fn parse_impl<S: TexlangState>(input: &mut vm::ExpandedStream<S>) -> txl::Result<Self> {
-        let u1 = Uint::<{ char::MAX as usize }>::parse(input)?;
-        let u2: u32 = u1.0.try_into().unwrap();
-        Ok(char::from_u32(u2).unwrap())
+        let (first_token, i, _) = parse_integer(input)?;
+        const N: usize = char::MAX as usize;
+        if i < 0 || i as usize >= N {
+            input.error(OutOfBoundsError::<N> {
+                first_token,
+                got: i,
+            })?;
+            return Ok('\0');
+        }
+        match char::from_u32(i as u32) {
+            Some(c) => Ok(c),
+            None => {
+                // The surrogate code points (0xD800 to 0xDFFF) are in range but are not characters.
+                input.error(error::SimpleTokenError::new(
+                    first_token,
+                    format!["the number {i} is a surrogate code point, not a character"],
+                ))?;
+                Ok('\0')
+            }
+        }
     }
 }
 
